@@ -404,7 +404,7 @@ def submit_all(ctx: Ctx):
         if cl.fn.qualname in cs:
             wait_sites.append(call)
     if cl.fn.qualname == fn.qualname:
-        wait_sites = [cl.loop.iter]
+        wait_sites = [cl.wait_call]
     if not wait_sites:
         yield ctx.ob('C05.SUBMIT-ALL', False, fn, outer, 'wait after submit', 'the main loop never waits for completions',
                      construct='no-wait')
@@ -416,6 +416,22 @@ def submit_all(ctx: Ctx):
     ok = g.must_pass(inner_h, wnodes, [header], exc=False)
     yield ctx.ob('C05.SUBMIT-ALL', ok, fn, wait_sites[0], 'every main-loop iteration waits after submitting',
                  '' if ok else 'the main loop can iterate without waiting for completions')
+    # the Runner.wait(...) call itself: where it is *evaluated* before the round's submissions (`completed = runner.wait(...)` hoisted
+    # above the submit loop and only iterated afterwards), every implementation must be lazy - a generator function, whose body
+    # does not run until it is iterated; an eager wait() would block for its timeout before the ready tasks are started
+    early = []
+    for (wf, wc) in cl.wait_calls:
+        if wf.qualname != fn.qualname or not any(x is wc for x in ast.walk(outer)):
+            continue
+        if g.primary(inner) in g.reachable([g.primary(wc)], avoid=[header], exc=False, include_starts=False):
+            early.append(wc)
+    if early:
+        eager = [w for w in roles.impls(ctx, roles.RUNNER, 'wait')
+                 if not any(isinstance(x, (ast.Yield, ast.YieldFrom)) for x in walk_local(w.node))]
+        yield ctx.ob('C05.SUBMIT-ALL', not eager, fn, early[0], 'a wait() evaluated before the submissions is lazy in every runner',
+                     '' if not eager else f'`{src(early[0])}` is evaluated before the ready tasks are submitted and {eager[0].short} is not a generator: '
+                     'it polls (and blocks for its timeout) first, so every newly runnable task starts one polling round late',
+                     construct='wait-evaluated-early')
     # nothing between the ready computation and the submit loop can skip it
     ci = cond_in_loop(ctx, fn, outer, inner)
     ok2 = ci == TRUE
@@ -515,6 +531,11 @@ def edges(ctx: Ctx):
                         and isinstance(call.args[0], ast.Name) and call.args[0].id == val:
                     found = call
         ok = found is not None and cond_in_loop(ctx, fn, lp, found) == TRUE
+        if not ok and field == sf.direct_deps and sf.direct_deps_whole_assign is not None \
+                and cond_from_entry(ctx, fn, sf.direct_deps_whole_assign) == TRUE:
+            # `self.<map>[task] = dependencies` (or a copy of it): all edges at once; C17.DEPS-OWNED decides whether the
+            # stored collection is safe from the caller
+            ok, found = True, sf.direct_deps_whole_assign
         yield ctx.ob('C02.EDGES', ok, fn, found or lp, f'{role} registered for every edge',
                      '' if ok else f'no unconditional `{sn}.<map>[{key}].add({val})` registering the {role}',
                      construct=f'edge:{role}')
